@@ -426,6 +426,7 @@ func (cl *Cluster) RestartNode(i int) (*Node, error) {
 	}
 	n.lives = old.lives
 	cl.mu.Lock()
+	cl.restarts++
 	cl.Nodes[i] = n
 	cl.mu.Unlock()
 	for _, s := range cl.Nodes {
